@@ -53,7 +53,7 @@ func genC09(t *rapid.T) c09Case {
 		li := rapid.IntRange(0, c.NLocs-1).Draw(t, l+".loc")
 		loc := locs[li]
 		k := rapid.IntRange(1, 2).Draw(t, l+".n")
-		switch rapid.SampledFrom([]string{"parents", "parents", "parents", "fact", "fact", "fact", "remFact", "rule", "rule", "remRule", "disable", "enable", "dupFact", "bulk", "bulk"}).Draw(t, l+".kind") {
+		switch rapid.SampledFrom([]string{"parents", "parents", "parents", "fact", "fact", "fact", "remFact", "rule", "rule", "remRule", "disable", "enable", "dupFact", "bulk", "bulk", "parentsFact", "remParentsFact"}).Draw(t, l+".kind") {
 		case "parents":
 			var ps []string
 			np := rapid.SampledFrom([]int{0, 1, 1, 1, 2}).Draw(t, l+".np")
@@ -81,6 +81,16 @@ func genC09(t *rapid.T) c09Case {
 			c.Ops = append(c.Ops, op{K: "setParents", Loc: loc, L: ps})
 		case "fact":
 			c.Ops = append(c.Ops, op{K: "addFact", Loc: loc, Id: fmt.Sprintf("%s_f%d", loc, k), Doc: M{"at": loc, "v": rapid.SampledFrom([]string{"x", "y"}).Draw(t, l+".v")}})
+		case "parentsFact":
+			// the parents property written as what it is: an ordinary
+			// property fact (towards later locations only)
+			var ps A
+			if li+1 <= c.NLocs-1 {
+				ps = A{locs[rapid.IntRange(li+1, c.NLocs-1).Draw(t, l+".pf")]}
+			}
+			c.Ops = append(c.Ops, op{K: "addFact", Loc: loc, Id: "", Doc: M{"!parents": ps}})
+		case "remParentsFact":
+			c.Ops = append(c.Ops, op{K: "remFact", Loc: loc, Id: "!.parents"})
 		case "bulk":
 			// many facts at once: inherited results that outgrow the
 			// buffers their merging starts with (in one case of six, at
